@@ -68,6 +68,8 @@ pub fn addr(i: u8) -> Address {
         // derived: CREATE addresses of the contract slots (nonces 0..3) and of the EOAs (nonces 0..2)
         37..=54 => refevm::create_address(contract((i - 37) / 3), ((i - 37) % 3) as u64),
         55..=62 => refevm::create_address(eoa((i - 55) / 2), ((i - 55) % 2) as u64),
+        // CREATE addresses of the second "empty" slot (nonces 1..3): C07's sibling-prefix contract lives there
+        63..=65 => refevm::create_address(tagged(0xee, 1), (i - 62) as u64),
         _ => addr(i % 63),
     }
 }
